@@ -237,5 +237,25 @@ PROPS["C17"] = {
     "assumptions": ["machine-code functions lifted by the translators are covered by C06's generator, not here"],
 }
 
+PROPS["C03"] = {
+    "quick_secs": 14,
+    "thorough_secs": 300,
+    "min_evaluations": 50000,
+    "technique": "differential monitor: falcon-lifted IL run by the reference IL interpreter vs an independent A64 decoder/interpreter (a64ref, written from the Arm ARM pseudocode) from the same state",
+    "rule": "one 32-bit word per case from 18 class templates with every free field random (add/sub imm/shifted/extended, move wide, logical imm/"
+            "shifted, load/store register in all addressing modes, unsigned offset, literal, pairs, ordered, LDAPUR/STLUR, b/bl, b.cond, cbz, tbz, "
+            "br/blr/ret, hints) plus uniformly random words; register values biased to pointers/small ints/corners, random NZCV; the bytes an access "
+            "touches are discovered by a probe run of the reference and mapped with random data; little- and big-endian data. Compared: X0-X30, SP, "
+            "NZCV, V0-V31, all memory, next PC. Thorough adds exhaustive 12-bit immediate (x LSL#12) and 6-bit shift-amount sweeps. Non-trivial = the "
+            "instruction changed a compared output; distinct = (a64ref class, endianness).",
+    "level_text": "Sampled (word, state) pairs per instruction class against an independently written interpreter; words that the reference classifies "
+                  "as UNDEFINED/UNPREDICTABLE/unmodelled are counted and not judged.",
+    "level_note": "trusts harness/src/a64ref.rs (106 hand-computed unit tests by its author), refinterp.rs and refeval.rs; a misreading of the Arm ARM shared by falcon and a64ref would be invisible",
+    "assumptions": [
+        "words for which a64ref reports Undefined/Unpredictable/Unmodelled are not judged even if falcon accepts them",
+        "SP alignment checking and exclusive monitors are not modelled",
+    ],
+}
+
 # properties not claimed, with the reason (everything else not in PROPS is 'not built yet')
 NOT_CLAIMED = {}
